@@ -41,6 +41,17 @@ def invalid_cases(rng, kind, thorough):
                 lines = [l for l in good if not l.startswith(prop + ":")]
                 lines.insert(5, prop + ":bad" + c + "char")
                 yield ("control-char", "%s U+%04X" % (prop, ord(c)), ("\r\n".join(lines) + "\r\n").encode("utf-8"))
+        # the same forbidden characters below the first level of nesting
+        for c in (CTRL if thorough else (["\x01", "\x7f"] + rng.sample(CTRL, 2))):
+            kindline = [l for l in good if l.startswith("BEGIN:") and l != "BEGIN:VCALENDAR"][0][6:]
+            if kindline in ("VEVENT", "VTODO"):
+                i = good.index("END:" + kindline)
+                lines = good[:i] + ["BEGIN:VALARM", "ACTION:DISPLAY", "DESCRIPTION:bad" + c + "char", "TRIGGER:-PT15M", "END:VALARM"] + good[i:]
+                yield ("control-char", "VALARM/DESCRIPTION U+%04X" % ord(c), ("\r\n".join(lines) + "\r\n").encode("utf-8"))
+            tz = [("TZNAME:bad" + c + "char") if l.startswith("TZNAME:") and n == [k for k, x in enumerate(gen.VTIMEZONE_AMS) if x.startswith("TZNAME:")][0] else l
+                  for n, l in enumerate(gen.VTIMEZONE_AMS)]
+            lines = good[:3] + tz + good[3:]
+            yield ("control-char", "VTIMEZONE/sub-component/TZNAME U+%04X" % ord(c), ("\r\n".join(lines) + "\r\n").encode("utf-8"))
         yield ("wrong-root", "VCARD as text/calendar", ("\r\n".join(gen.vcard_lines(rng, "c14inv", "tok", rich=False)) + "\r\n").encode())
         lines = list(good)
         i = lines.index("END:VCALENDAR")
@@ -172,7 +183,7 @@ class Runner:
         if self.k % 6 == 0:
             self.req("DELETE", target)
 
-    def invalid_case(self, colpath, kind, backend, cls, detail, body, existing=False):
+    def invalid_case(self, colpath, kind, backend, cls, detail, body, existing=False, primed=None):
         w, rng, res = self.w, self.rng, self.res
         self.k += 1
         ext = ".ics" if kind == "calendar" else ".vcf"
@@ -186,6 +197,16 @@ class Runner:
             s, r = self.req("PUT", target, [("Content-Type", ctype)], old)
             s, r = self.req("GET", target)
             old = r.body
+        prime_target = None
+        if primed:
+            # the same bytes are already known to the collection under a name / media
+            # type that is not validated: validity is a property of the request, not
+            # of whether the bytes were seen before
+            pext, ptype = {"plain": (".txt", "text/plain"), "other": ((".vcf", "text/vcard") if kind == "calendar" else (".ics", "text/calendar"))}[primed]
+            prime_target = w.url(colpath, "p%d%s" % (self.k, pext))
+            sp, rp = self.req("PUT", prime_target, [("Content-Type", ptype)], body)
+            res.count("primed_" + primed + ("_stored" if W.World.success(sp.eff) else "_refused"))
+            detail = (detail + " " if detail else "") + "[same bytes stored before as %s]" % ptype
         tag1 = self.tags(colpath)
         s, r = self.req("PUT", target, [("Content-Type", ctype)], body)
         res.evaluations += 1
@@ -193,10 +214,14 @@ class Runner:
         res.count("invalid:" + cls)
         outcome = "accepted" if W.World.success(s.eff) else ("refused-5xx" if s.eff >= 500 or s.eff == 0 else "refused")
         res.count("invalid_" + outcome)
-        res.seen(kind, backend, cls, detail if cls == "control-char" else "", outcome, existing)
+        res.seen(kind, backend, cls, detail if cls == "control-char" else "", outcome, existing, primed)
         s2, r2 = self.req("GET", target)
         tag2 = self.tags(colpath)
+        if prime_target:
+            self.req("DELETE", prime_target)
         sigd = cls if cls != "control-char" else "control-char/" + detail.split(" ")[0]
+        if primed:
+            sigd += "/bytes-known-as-" + primed
         if outcome != "accepted":
             if existing:
                 if s2.eff != 200 or r2.body != old:
@@ -268,6 +293,8 @@ def run_shard(args):
                 continue
             for (cls, detail, body) in invalid_cases(rng, kind, args["thorough"]):
                 run.invalid_case(cp, kind, be, cls, detail, body, existing=(rng.random() < 0.3))
+                if cls == "wrong-root" or rng.random() < 0.2:
+                    run.invalid_case(cp, kind, be, cls, detail, body, existing=(rng.random() < 0.3), primed="other" if cls == "wrong-root" and rng.random() < 0.7 else "plain")
         res.sample({"invalid_case_requests": run.log[-4:]})
     except Exception:
         res.inconclusive.append("harness exception: " + traceback.format_exc()[-1500:])
@@ -289,6 +316,7 @@ def check(tier, seed, t0):
     c = merged["counters"]
     gen_n = max(1, c.get("valid_generated", 0))
     guards = [("valid bodies generated", c.get("valid_generated", 0), 600 if not th else 8000),
+              ("invalid bodies whose bytes were stored before under an unvalidated type", c.get("primed_plain_stored", 0) + c.get("primed_other_stored", 0), 60),
               ("share of valid bodies accepted (percent)", 100 * c.get("valid_accepted", 0) // gen_n, 90),
               ("fixed-point checks", c.get("fixed_point_checks", 0), 500 if not th else 7000),
               ("invalid bodies generated", c.get("invalid_generated", 0), 500 if not th else 3000),
